@@ -23,10 +23,27 @@
                      definition where it was dropped (its canonical text is v's), scopes block-wise,
                      the unchanged block for a .multiple definition
    Equal canonical texts mean equal extracted values for the library's converters; that step is not
-   part of the model (the stream compares extract() dumps). *)
+   part of the model (the stream compares extract() dumps).
+
+   Masters WITH .multiple scopes (Proofs/FetchDiffMScopes.v), domain D08S = D07 /\ wf_master (no nms; .multiple
+   entries inside .multiple scopes included).  Vocabulary wbS / dspS (wb / dsp plus one case):
+     wbS k b       for a .multiple scope: the template copy + FULL instances (each given block-wise, recursively)
+                   with pairwise different canonical texts, all different from the master's
+     dspS k b db   for a .multiple scope: per instance its PARTIAL instance - the scope holding the difference
+                   of the instance's blocks (so NOT "all instances without the template": each instance is
+                   reduced to what differs from the template's definitions); no template
+   C08_working_blocks_ms and C08_defaults_empty_ms need no further hypothesis.  C08_diff_spec_ms is stated
+   under partial_texts_ok m (about the oracle, for the .multiple scopes of m only): an instance whose text
+   differs from the master's has a non-empty partial instance whose text differs from the master's, and partial
+   instances with equal texts come from instances with equal texts (processed_as_str is keyed by the text of
+   the PARTIAL instance in a difference run).  C08_partial_texts_needed: with an oracle that prints values
+   without names the hypothesis fails and an instance is lost (not a run of the library, which prints names).
+   NOT proved here for .multiple scopes: the restore / diff-of-restored statements (vocabulary reqS and the
+   second oracle hypothesis restored_texts_ok are defined in Proofs/FetchDiffMScopes.v; the stream evaluates
+   those runs). *)
 From Coq Require Import List Ascii String Bool Arith ZArith.
 From Phil Require Import Base Tree Vars Choice Fetch FetchBasics FetchShape FetchDisabled FetchExamples
-  FetchIdemLists FetchIdemBase FetchIdem FetchIdemCopy FetchIdemExamples FetchDiffBase FetchDiff FetchDiffCycle FetchDiffExamples VarsDiffText.
+  FetchIdemLists FetchIdemBase FetchIdem FetchIdemCopy FetchIdemExamples FetchDiffBase FetchDiff FetchDiffCycle FetchDiffExamples FetchDiffMScopes VarsDiffText.
 Import ListNotations.
 
 (* D contains only parameters whose value differs from the master default: every definition of a
@@ -77,6 +94,54 @@ Theorem C08_defaults_empty : forall env canon, (forall k, canon k (Some k) = can
   fetch env canon false m [] = Ok w0 -> fetch env canon true m [w0] = Ok d -> d = [].
 Proof. exact defaults_empty. Qed.
 Print Assumptions C08_defaults_empty.
+
+(* ---------------------------------------------------------------- masters with .multiple scopes *)
+(* working parameters obtained by fetching, one block per master entry; a .multiple scope contributes its
+   template copy and full instances (wbS) *)
+Theorem C08_working_blocks_ms : forall env canon m srcs w, D08S env canon m -> srcs_have_dollar srcs = false ->
+  fetch env canon false m srcs = Ok w ->
+  exists bs, w = List.concat bs /\ Bl (wbS env canon) (entries m) bs.
+Proof. exact working_blocks_ms. Qed.
+Print Assumptions C08_working_blocks_ms.
+
+(* the difference, block by block; a .multiple scope contributes one partial instance per instance (dspS) *)
+Theorem C08_diff_spec_ms : forall env canon, (forall k, canon k (Some k) = canon k None) ->
+  forall m srcs w d, D08S env canon m -> partial_texts_ok env canon m -> srcs_have_dollar srcs = false ->
+  fetch env canon false m srcs = Ok w -> fetch env canon true m [w] = Ok d ->
+  exists bs dbs, w = List.concat bs /\ d = List.concat dbs /\ Bl2 (dspS env canon) (entries m) bs dbs.
+Proof. exact diff_spec_ms. Qed.
+Print Assumptions C08_diff_spec_ms.
+
+(* the difference of the master's own defaults is empty *)
+Theorem C08_defaults_empty_ms : forall env canon, (forall k, canon k (Some k) = canon k None) ->
+  forall m w0 d, D08S env canon m ->
+  fetch env canon false m [] = Ok w0 -> fetch env canon true m [w0] = Ok d -> d = [].
+Proof. exact defaults_empty_ms. Qed.
+Print Assumptions C08_defaults_empty_ms.
+
+(* the hypothesis of C08_diff_spec_ms cannot be dropped: oracle ex_canon (values without names), master
+   s .multiple { a = 1  b = 2 }, source  s { a = 3 }  s { b = 3 }: W = template + two instances, the partial
+   instances s { a = 3 } and s { b = 3 } have the same text "3", D keeps one, R holds one instance *)
+Theorem C08_partial_texts_needed : exists w d r,
+  fetch ex_env ex_canon false mc_master [mc_source] = Ok w /\ fetch ex_env ex_canon true mc_master [w] = Ok d /\
+  fetch ex_env ex_canon false mc_master [d] = Ok r /\
+  map (fun o => vjoin_sp (flat_words o)) w = [s_ "1 2"; s_ "3 2"; s_ "1 3"] /\
+  map (fun o => vjoin_sp (flat_words o)) d = [s_ "3"] /\
+  map (fun o => vjoin_sp (flat_words o)) r = [s_ "1 2"; s_ "1 3"].
+Proof. exact mc_partial_texts_collide. Qed.
+Print Assumptions C08_partial_texts_needed.
+
+(* non-vacuity: master  x = 0   s .multiple { a = 1 },  source  s { a = 2 }  s { a = 1 }  (the second instance
+   equals the template), oracle ncanon (prints names): in D08S, the oracle hypotheses hold, the four runs
+   return; D is the one instance s { a = 2 }, the restored parameters are W itself *)
+Example C08_domain_ms_satisfiable :
+  (forall k, ncanon k (Some k) = ncanon k None) /\ D08S ex_env ncanon ms_master /\
+  partial_texts_ok ex_env ncanon ms_master /\ srcs_have_dollar [ms_source] = false /\
+  fetch ex_env ncanon false ms_master [ms_source] = Ok ms_w /\
+  fetch ex_env ncanon true ms_master [ms_w] = Ok ms_d /\
+  fetch ex_env ncanon false ms_master [ms_d] = Ok ms_w /\
+  fetch ex_env ncanon true ms_master [ms_w] = Ok ms_d.
+Proof. exact (conj ncanon_self (conj ms_D08S (conj ms_partial_ok (conj eq_refl ms_runs)))). Qed.
 
 (* ---------------------------------------------------------------- undefined $variables stay textual *)
 (* The clause "undefined $variables stay textual" of fetch_diff: the text written for an unresolved
